@@ -287,6 +287,7 @@ LEVEL_TEXT = ('Generated-input search over both layers, families, positive biase
               'with torch autograd of the same forward recomposed from differentiable primitives (exact, when the recomposition '
               'reproduces the output), with central finite differences of the real forward, and checked finite in float32 and '
               'float64; SmoothMagFn is compared with autograd for all three grad subsets.')
+LEVEL_TEXT += (' Also generated: eval() mode, biases down to 1e-10 with matching low-amplitude inputs, oriented gratings (with a conditioning term in the tolerance).')
 LEVEL_NOTE = ('Trusts torch autograd of conv2d/avg_pool2d/sqrt; finite differences only for bias >= 1e-3 and unit-scale inputs; '
               'sizes <= 24x24; the H or W == 2 domain of KF-D10 (C08) is skipped.')
 TECHNIQUE = 'property-based testing (Hypothesis), gradient oracle: autograd of a recomposed forward + central finite differences'
